@@ -15,6 +15,8 @@ def jobs(tier):
         Job("code-k3-exc", M, "h_code", dict(C16_KOPS=3, C16_NEXC=1), shards=61, timeout=t),
         Job("real-programs", M, "h_real", dict(C16_NSTMT=8, C16_NWRAP=4), shards=61, timeout=t,
             note="real CPython output for generated programs (two statements x wrapper x loop x tail)"),
+        Job("real-split-try", M, "h_real", dict(C16_REALSET=1, C16_NSTMT=8, C16_NWRAP=4), shards=31, timeout=t,
+            note="try bodies that the compiler cuts into several exception-table entries (inlined comprehensions, loops with break, return)"),
     ]
   return [
       Job("graph-n4", M, "h_graph", dict(C16_GN=4), shards=251, timeout=t),
@@ -24,6 +26,8 @@ def jobs(tier):
       Job("code-k4-2exc", M, "h_code", dict(C16_KOPS=4, C16_NEXC=2, C16_MINEXC=2, C16_NOEG=1, C16_GAPS=1), shards=251, timeout=t,
           note="exactly two disjoint exception-table entries ending on instruction boundaries (try/except followed by, or nested in, another)"),
       Job("real-programs", M, "h_real", dict(C16_NSTMT=22, C16_NWRAP=6), shards=251, timeout=t),
+      Job("real-split-try", M, "h_real", dict(C16_REALSET=1, C16_NSTMT=8, C16_NWRAP=6), shards=61, timeout=t,
+          note="try bodies that the compiler cuts into several exception-table entries (inlined comprehensions, loops with break, return)"),
   ]
 
 
